@@ -168,12 +168,18 @@ let item_of_string (s : string) : item =
 let items_of_string (s : string) : item list =
   if s = "-" then [] else List.map item_of_string (String.split_on_char ',' s)
 
+let entry_of = function
+  | "doc" -> PW_doc | "selset" -> PW_selset | "type" -> PW_type | _ -> failwith "entry"
+
+(* with a 5th field: the parser model on the given items (interim tie);
+   without: lexer model and parser model composed on the source string *)
 let run_case (line : string) : pw_obs =
   match String.split_on_char ' ' line with
   | entry :: _tl :: rl :: _src :: items :: _ ->
-    let e = (match entry with "doc" -> PW_doc | "selset" -> PW_selset | "type" -> PW_type
-                            | _ -> failwith "entry") in
-    pw_run e false (n_of_int (int_of_string rl)) (items_of_string items)
+    pw_run (entry_of entry) false (n_of_int (int_of_string rl)) (items_of_string items)
+  | [entry; tl; rl; src] ->
+    let tl = if tl = "-" then None else Some (n_of_int (int_of_string tl)) in
+    pw_run_src (entry_of entry) false (n_of_int (int_of_string rl)) tl (str_of_hex src)
   | _ -> failwith "parse case line"
 
 let status (o : pw_obs) (k : unit -> string) : string =
